@@ -1,9 +1,281 @@
--- line-protocol handler of property C16 (stub: nothing modelled yet)
+-- line-protocol handler of property C16 (constraint divisors, assertions, boundary constraints);
+-- op lines mirror harness/src/bin/c16.rs
 import Winter.Drv.Util
+import Winter.Model.Field
+import Winter.Model.Divisor
 
 namespace Drv.C16
+open Model Model.Divisor
 
-def handle (_toks : List String) : String := "-"
+def field? : String → Option FieldImpl
+  | "f64" => some F64.impl
+  | "f62" => some F62.impl
+  | "f128" => some F128.impl
+  | _ => none
+
+/-- the code's field operations on raw words -/
+def ops (F : FieldImpl) : Ops Nat where
+  zero := F.new 0
+  one := F.new 1
+  add := F.add
+  sub := F.sub
+  mul := F.mul
+  pow := F.exp
+  div := fun a b => match F.div a b with
+    | .done r => some r
+    | .out => none
+  ofNat := F.new
+  root := F.rootOfUnity
+
+def HP : Nat := 2305843009213693951
+
+def hstep (acc x : Nat) : Nat := (acc * 1000003 + x % HP + 1) % HP
+
+def val (seed i : Nat) : Nat := (seed + 1) * (i + 7) * 1000003 + i * i
+
+def bits (bs : List Bool) : String :=
+  if bs.isEmpty then "-" else String.ofList (bs.map (fun b => if b then '1' else '0'))
+
+structure Desc where
+  kind : String
+  col : Nat
+  first : Nat
+  stride : Nat
+  count : Nat
+
+def Desc.parse (s : String) : Option Desc :=
+  match s.splitOn ":" with
+  | [k, c, f, st, n] =>
+    if k == "s" || k == "p" || k == "q" then
+      match c.toNat?, f.toNat?, st.toNat?, n.toNat? with
+      | some c, some f, some st, some n => some ⟨k, c, f, st, n⟩
+      | _, _, _, _ => none
+    else none
+  | _ => none
+
+/-- the constructor call the harness makes for a descriptor -/
+def Desc.build (F : FieldImpl) (d : Desc) (seed : Nat) : Res (Assertion Nat) :=
+  if d.kind == "s" then .ok (single d.col d.first (F.new (val seed 0)))
+  else if d.kind == "p" then periodic d.col d.first d.stride (F.new (val seed 0))
+  else sequence d.col d.first d.stride ((List.range d.count).map (fun i => F.new (val seed i)))
+
+/-- enumeration of all assertions valid for trace length n in a column (same order as the harness) -/
+def pow2sFrom (fuel lo hi : Nat) : List Nat :=
+  match fuel with
+  | 0 => []
+  | fuel + 1 => if lo ≤ hi then lo :: pow2sFrom fuel (2 * lo) hi else []
+
+def allValid (n col : Nat) : List Desc :=
+  (List.range n).map (fun f => (⟨"s", col, f, 0, 1⟩ : Desc))
+  ++ (pow2sFrom 64 2 n).flatMap (fun st => (List.range st).map (fun f => (⟨"p", col, f, st, 1⟩ : Desc)))
+  ++ (pow2sFrom 64 2 (n / 2)).flatMap (fun st => (List.range st).map (fun f => (⟨"q", col, f, st, n / st⟩ : Desc)))
+
+def optStr (F : FieldImpl) : Option Nat → String
+  | some r => toString (F.asInt r)
+  | none => "hang"
+
+def degStr : Res Nat → String
+  | .ok d => toString d
+  | .panic _ => "panic"
+
+/-- points g^0 … g^(n-1) as the harness walks them (x := x * g) -/
+def domainPoints (F : FieldImpl) (n : Nat) : List Nat :=
+  let g := match F.rootOfUnity (Nat.log2 n) with
+    | some g => g
+    | none => F.new 1
+  ((List.range n).foldl (fun (st : Nat × List Nat) _ => (F.mul st.1 g, st.1 :: st.2)) (F.new 1, [])).2.reverse
+
+def tdiv (F : FieldImpl) (agg : Bool) (n e : Nat) (x : Nat) : String :=
+  let O := ops F
+  match fromTransition O n e, fromTransition O n 0 with
+  | .ok d, .ok d0 =>
+    if agg then
+      let pts := (domainPoints F n).map (fun x => (d.evalAt O x, d.evalExemptions O x, d0.evalAt O x))
+      if pts.any (fun p => p.1.isNone || p.2.2.isNone) then "hang"
+      else
+        let vals := pts.map (fun p => (F.asInt (p.1.getD 0), F.asInt p.2.1, F.asInt (p.2.2.getD 0)))
+        let h := vals.foldl (fun h p => hstep (hstep (hstep h p.1) p.2.1) p.2.2) 0
+        s!"deg={degStr d.degree} zq={bits (vals.map (·.1 == 0))} ze={bits (vals.map (·.2.1 == 0))} zn={bits (vals.map (·.2.2 == 0))} h={h}"
+    else
+      let x := F.new x
+      s!"{optStr F (d.evalAt O x)} {F.asInt (d.evalExemptions O x)} {optStr F (d0.evalAt O x)} {degStr d.degree}"
+  | _, _ => "panic"
+
+def adiv (F : FieldImpl) (agg : Bool) (d : Desc) (n : Nat) (x : Nat) : String :=
+  let O := ops F
+  match d.build F 0 with
+  | .panic _ => "ctor-panic"
+  | .ok a =>
+    match fromAssertion O a n with
+    | .panic _ => "panic"
+    | .ok dv =>
+      match dv.numerator with
+      | [(k, off)] =>
+        if agg then
+          let vals := (domainPoints F n).map (fun x => dv.evalAt O x)
+          if vals.any (·.isNone) then "hang"
+          else
+            let vals := vals.map (fun v => F.asInt (v.getD 0))
+            s!"k={k} off={F.asInt off} deg={degStr dv.degree} z={bits (vals.map (· == 0))} h={vals.foldl hstep 0}"
+        else s!"{k} {F.asInt off} {optStr F (dv.evalAt O (F.new x))} {degStr dv.degree}"
+      | _ => "bad-divisor"
+
+/-- `AirContext::new(TraceInfo::new(width, n), …)` preconditions -/
+def ctxOk (width n : Nat) : Bool := width ≥ 1 && width ≤ 255 && n ≥ 8 && isPow2 n
+
+def bval (F : FieldImpl) (agg : Bool) (d : Desc) (seed n : Nat) (x : Nat) : String :=
+  let O := ops F
+  match d.build F seed with
+  | .panic _ => "panic"
+  | .ok a =>
+    if !ctxOk (d.col + 1) n then "panic"
+    else match prepareAssertions [a] (d.col + 1) n with
+    | .panic _ => "panic"
+    | .ok sorted =>
+      match groupConstraints O sorted n with
+      | .panic _ => "panic"
+      | .ok _ =>
+        match F.rootOfUnity (Nat.log2 n) with
+        | none => "panic"
+        | some g =>
+          match O.div O.one g with
+          | none => "hang"
+          | some invG =>
+            match BConstraint.new O a invG with
+            | none => "hang"
+            | some c =>
+              let sh := s!"sh={c.offsetSteps} {F.asInt c.offsetElem}"
+              let value := fun x => F.asInt (O.sub O.zero (c.evalAt O x O.zero))
+              if agg then
+                let vals := (domainPoints F n).map value
+                let v0 := (vals.drop a.first).headD 0
+                s!"{sh} v0={v0} h={vals.foldl hstep 0}"
+              else s!"{sh} v={value (F.new x)}"
+
+def prep (F : FieldImpl) (n width : Nat) (ds : List Desc) : String :=
+  let O := ops F
+  let built := ds.zipIdx.foldr (fun (d, i) acc =>
+    match acc, d.build F i with
+    | some l, .ok a => some (a :: l)
+    | _, _ => none) (some [])
+  match built with
+  | none => "panic"
+  | some as =>
+    if !ctxOk width n || as.isEmpty then "panic"
+    else match prepareAssertions as width n with
+    | .panic _ => "panic"
+    | .ok sorted =>
+      match groupConstraints O sorted n with
+      | .panic _ => "panic"
+      | .ok groups =>
+        let gs := groups.map (fun g =>
+          match g.divisor.numerator with
+          | [(k, off)] => s!"{k}/{F.asInt off}:{",".intercalate (g.columns.map toString)}"
+          | _ => "?")
+        "ok " ++ ";".intercalate gs
+
+def lenStr : Except LenErr Unit → String
+  | .ok () => "ok"
+  | .error .notPow2 => "notpow2"
+  | .error .tooShort => "short"
+  | .error .notExact => "inexact"
+
+def mk (d : Desc) (n width : Nat) : String :=
+  let F := F128.impl
+  match d.build F 0 with
+  | .panic _ => "panic"
+  | .ok a =>
+    let w := if a.validateTraceWidth width then "ok" else "err"
+    let ap := match a.apply n with
+      | .panic _ => "panic"
+      | .ok l => s!"{l.length}:{l.foldl (fun (h : Nat) (p : Nat × Nat) => hstep (hstep h p.1) (F.asInt p.2)) 0}"
+    s!"ok {a.stride} {a.values.length} w={w} l={lenStr (a.validateTraceLength n)} k={degStr (a.getNumSteps n)} ap={ap}"
+
+def overlap (n : Nat) (a : Desc) (b : Option Desc) : String :=
+  let F := F128.impl
+  match a.build F 1 with
+  | .panic _ => "ctor-panic"
+  | .ok ia =>
+    match b with
+    | some b =>
+      match b.build F 1 with
+      | .panic _ => "ctor-panic"
+      | .ok ib => s!"{boolStr (ia.overlapsWith ib)} {boolStr (ib.overlapsWith ia)}"
+    | none =>
+      let bs := (allValid n 0).map (fun b =>
+        match b.build F 2 with
+        | .ok ib => ia.overlapsWith ib
+        | .panic _ => false)
+      s!"cnt={(bs.filter id).length} bits={bits bs}"
+
+def parseDegree (s : String) : Option Degree :=
+  match natList (s.splitOn ":") with
+  | some (b :: cs) => some ⟨b, cs⟩
+  | _ => none
+
+def exempt (n e blowup : Nat) (ds : List Degree) : String :=
+  -- AirContext::new: trace length >= 8 and a power of two, blowup >= the constraints' minimum
+  if !(n ≥ 8 && isPow2 n) || ds.isEmpty || blowup < ceBlowup ds then "ctx-panic"
+  else match setNumTransitionExemptions n ds e with
+    | .panic _ => "panic"
+    | .ok e' =>
+      match fromTransition (ops F128.impl) n e' with
+      | .panic _ => "panic"
+      | .ok d => s!"ok {e'} {degStr d.degree} {d.exemptions.length}"
+
+def handleF (F : FieldImpl) : List String → String
+  | ["tdivx", n, e, x] =>
+    match n.toNat?, e.toNat?, x.toNat? with
+    | some n, some e, some x => tdiv F false n e x
+    | _, _, _ => "bad-op"
+  | ["tdivs", n, e] =>
+    match n.toNat?, e.toNat? with
+    | some n, some e => tdiv F true n e 0
+    | _, _ => "bad-op"
+  | ["adivx", d, n, x] =>
+    match Desc.parse d, n.toNat?, x.toNat? with
+    | some d, some n, some x => adiv F false d n x
+    | _, _, _ => "bad-op"
+  | ["adivs", d, n] =>
+    match Desc.parse d, n.toNat? with
+    | some d, some n => adiv F true d n 0
+    | _, _ => "bad-op"
+  | ["bvalx", d, seed, n, x] =>
+    match Desc.parse d, seed.toNat?, n.toNat?, x.toNat? with
+    | some d, some seed, some n, some x => bval F false d seed n x
+    | _, _, _, _ => "bad-op"
+  | ["bvals", d, seed, n] =>
+    match Desc.parse d, seed.toNat?, n.toNat? with
+    | some d, some seed, some n => bval F true d seed n 0
+    | _, _, _ => "bad-op"
+  | "prep" :: n :: width :: ds =>
+    match n.toNat?, width.toNat?, ds.mapM Desc.parse with
+    | some n, some width, some ds => prep F n width ds
+    | _, _, _ => "bad-op"
+  | _ => "bad-op"
+
+def handle : List String → String
+  | ["mk", d, n, width] =>
+    match Desc.parse d, n.toNat?, width.toNat? with
+    | some d, some n, some width => mk d n width
+    | _, _, _ => "bad-op"
+  | ["overlap", n, a, b] =>
+    match n.toNat?, Desc.parse a, Desc.parse b with
+    | some n, some a, some b => overlap n a (some b)
+    | _, _, _ => "bad-op"
+  | ["ovall", n, a] =>
+    match n.toNat?, Desc.parse a with
+    | some n, some a => overlap n a none
+    | _, _ => "bad-op"
+  | "exempt" :: n :: e :: blowup :: ds =>
+    match n.toNat?, e.toNat?, blowup.toNat?, ds.mapM parseDegree with
+    | some n, some e, some blowup, some ds => exempt n e blowup ds
+    | _, _, _, _ => "bad-op"
+  | f :: rest =>
+    match field? f with
+    | some F => handleF F rest
+    | none => "bad-op"
+  | _ => "bad-op"
 
 end Drv.C16
 
